@@ -449,7 +449,9 @@ pub fn finish(ctx: &Ctx, meta: Meta, report: Report) -> ! {
         });
         let dir = verif_root().join("evidence");
         std::fs::create_dir_all(&dir).ok();
-        let path = dir.join(format!("{}.json", ctx.id));
+        // a second engine contributing to the same property writes <ID>.<suffix>.json; the dispatcher merges it
+        let suffix = std::env::var("VERIF_EVIDENCE_SUFFIX").map(|s| format!(".{s}")).unwrap_or_default();
+        let path = dir.join(format!("{}{}.json", ctx.id, suffix));
         std::fs::write(&path, serde_json::to_vec_pretty(&ev).unwrap()).unwrap();
         let _ = writeln!(
             out,
